@@ -382,7 +382,11 @@ func (g G) exprOfType(t cty.Type, env exprEnv, depth int) string {
 		}
 		return literalText(g, g.Val(concretise(t)), true)
 	}
-	switch g.Weighted(34, 20, 8, 8, 6, 5, 5, 4, 4, 3, 3) {
+	switch g.Weighted(34, 20, 8, 8, 6, 5, 5, 4, 4, 3, 3, 2, 2) {
+	case 11:
+		return "null"
+	case 12:
+		return g.exprOfType(cty.Bool, env, depth-1) + " ? null : " + g.exprOfType(t, env, depth-1)
 	case 0:
 		return literalText(g, g.Val(concretise(t)), true)
 	case 1:
@@ -475,6 +479,9 @@ func (g G) callText(env exprEnv, depth int) string {
 	sep := ", "
 	if g.Chance(10) {
 		sep = ",\n    "
+	}
+	if strings.Contains(name, "::") && g.Chance(15) {
+		name = strings.Replace(name, "::", Pick(g, []string{" :: ", ":: ", " ::", ":"}), 1)
 	}
 	s := name + "(" + strings.Join(args, sep)
 	if len(args) > 0 && g.Chance(8) {
